@@ -12,3 +12,6 @@ open SamVerif.Differ
 #print axioms diff_append_one
 #print axioms longestTrace_total
 #print axioms diff_total_correct
+#print axioms text_lift
+#print axioms import_edits_text
+#print axioms auto_import_text
